@@ -30,7 +30,6 @@ REQUIRED_THEOREMS = ['cp_table_conforms', 'cp_template_conforms', 'refr_template
                      'refr_re_zero_witness', 'refr_im_spec', 'refr_im_element_stops', 'refr_im_element_fails', 'refr_im_zero_witness',
                      'refr_complex_spec', 'refr_complex_element_stops', 'refr2_eq', 'refr_temporaries_released']
 MIN_EXAMPLES = 14
-PROPOSED = os.path.join(VERIF, 'notes', 'proposed_findings', 'C06.txt')      # proposed entries, read in addition to known_findings.txt until merged
 # known-finding site (matched by this exact key; the classification below decides, per call, whether a failure IS this site's behaviour)
 K_MASK = 'cs_cp.c:48-51 zero elemental value ends the loop before a failing element'
 
@@ -181,14 +180,8 @@ def masked_failure(line, pc):
     return None
 
 def load_known():
-    out = list(core.load_known_findings().get(ID, []))
-    try:
-        for l in open(PROPOSED):
-            m = re.match(r'finding:\s+property=(C\d+)\s+key=\[([^\]]*)\]\s*(.*)', l.strip())
-            if m and m.group(1) == ID and m.group(2) not in [k for k, _ in out]: out.append((m.group(2), m.group(3)))
-    except OSError:
-        pass
-    return out
+    """the ONLY file that can suppress a violation is /verif/known_findings.txt"""
+    return list(core.load_known_findings().get(ID, []))
 
 def judge(line, pc):
     """-> list of failure texts of the property on this call (empty = holds)"""
